@@ -736,6 +736,8 @@ fn justice_scenario(seed: u64, thorough: bool, index: u64) -> Result<Outcome, St
 	out.ops.extend(cx.stream.lines.drain(..));
 	// the package layer (Model/Packages.lean): real handler state before each call -> model -> real state after it
 	for (op, res, cl) in pkgtrace::cases() { out.ops.push((op, Some(res), cl)); }
+	// … and the translated package_weight against the real weight of every justice transaction the victim broadcast
+	{ let mut seen = BTreeSet::new(); for (_, t) in cx.bcast.iter() { if seen.insert(t.compute_txid()) { if let Some((op, res, cl)) = pkgtrace::weight_case(t, anchors) { out.ops.push((op, Some(res), cl)); } } } }
 	Ok(out)
 }
 
